@@ -32,6 +32,11 @@ func nodeStr(n data.NodeEdge) string {
 	return fmt.Sprintf("%s~%s~%d~%s~%s~%s", hxs(n.ID), hxs(n.Type), n.Hash, hxs(n.Parent), ptsStr(n.Points), ptsStr(n.EdgePoints))
 }
 
+// nodeCaseStr is nodeStr for case lines (inputs), see ptsCaseStr
+func nodeCaseStr(n data.NodeEdge) string {
+	return fmt.Sprintf("%s~%s~%d~%s~%s~%s", hxs(n.ID), hxs(n.Type), n.Hash, hxs(n.Parent), ptsCaseStr(n.Points), ptsCaseStr(n.EdgePoints))
+}
+
 func nodesStr(ns []data.NodeEdge) string {
 	if len(ns) == 0 {
 		return "-"
@@ -252,9 +257,9 @@ func c12Gen(r *rand.Rand, n int, tier string) []string {
 			if r.Intn(6) == 0 && len(ps) > 0 { // time outside the Timestamp range is not expressible in ns; tombstone beyond int32
 				ps[0].Tombstone = pick(r, []int{math.MaxInt32 + 1, math.MinInt32 - 1, 1 << 40})
 			}
-			out = append(out, "ep "+ptsStr(ps))
+			out = append(out, "ep "+ptsCaseStr(ps))
 		case k < 4:
-			out = append(out, "en "+nodeStr(c12Node(r)))
+			out = append(out, "en "+nodeCaseStr(c12Node(r)))
 		case k < 5:
 			var ns []data.NodeEdge
 			for j := 0; j < r.Intn(3); j++ {
